@@ -84,3 +84,58 @@ def run(ctx):
                     s = rng.choice(st)
                     w.stores[s].v = w.stores[s].t = None
     tc.eval_model()
+    retry_scenarios(ctx, uj)
+
+
+def retry_scenarios(ctx, uj):
+    """a dry run performs the stale check exactly as the real run with the same arguments does - including retry= around
+    transiently failing modified-time queries - so it succeeds exactly when the real run's stale check succeeds and
+    plans the same writes"""
+    import datetime as dt
+    T0 = dt.datetime(2020, 1, 1)
+
+    class Flaky(uj.ValueStore):
+        def __init__(self, v, t, fails):
+            self.v, self.t, self.fails, self.left, self.writes = v, t, fails, fails, 0
+
+        def read(self):
+            return self.v
+
+        def write(self, v):
+            self.v, self.t = v, T0 + dt.timedelta(days=100)
+            self.writes += 1
+
+        def get_modified_time(self):
+            if self.left > 0:
+                self.left -= 1
+                raise IOError("transient")
+            return self.t
+
+    def build(fails, which):
+        plan, reg = uj.Plan(), uj.Registry()
+        st = [Flaky(1, T0 + dt.timedelta(days=5), fails if which == 0 else 0),
+              Flaky(2, T0 + dt.timedelta(days=1), fails if which == 1 else 0),        # older than its source: stale
+              Flaky(3, T0 + dt.timedelta(days=9), fails if which == 2 else 0)]
+        s = reg.source(plan, st[0])
+        a = plan.call(lambda x: x + 1, s)
+        reg.add(a, st[1])
+        b = plan.call(lambda x: x * 2, a)
+        reg.add(b, st[2])
+        return plan, reg, st, b
+
+    for retry in (None, 1, 2, 4):
+        for fails in (0, 1, 3):
+            for which in (0, 1, 2):
+                outs = {}
+                for mode in ("dry", "real"):
+                    plan, reg, st, b = build(fails, which)
+                    try:
+                        uj.run(plan, registry=reg, output=b, retry=retry, dry_run=(mode == "dry"), progress=None, max_workers=1)
+                        outs[mode] = "ok"
+                    except uj.CallError:
+                        outs[mode] = "callerror"
+                ctx.case(("c14-retry", retry, fails, which))
+                ctx.count("retry_scenario", "%s/%s" % (outs["dry"], outs["real"]))
+                if outs["dry"] != outs["real"]:
+                    ctx.fail("dry-run-retry", "with retry=%r and a modified-time query that fails %d time(s) first, the dry run %s but the real run %s"
+                             % (retry, fails, outs["dry"], outs["real"]), {"retry": retry, "transient_failures": fails, "store": which})
